@@ -27,6 +27,7 @@ OUT = os.path.join(HERE, "..", "lean", "BS", "Generated", "Core.lean")
 
 FILES = [
     "src/series.rs",
+    "src/series/data/inline_meta.rs",
     "src/series/data/inline_meta/meta.rs",
     "src/series/data/index.rs",
     "src/series/data.rs",
@@ -51,8 +52,13 @@ STRUCTS = {
     "Data": ("Impl.DataView", {"payload_size": "p", "data_len": "dataLen", "last_time": "lastTime",
                                "index": "@index"}),
     # the cache as `repair::add_missing_data` sees it: its own Data, the bucket size, `lines_to_skip`
-    "DownSampledData": ("CacheView", {"data": "data", "config": "@same", "lines_to_skip": "lines_to_skip"}),
+    "DownSampledData": ("CacheView", {"data": "data", "config": "@same", "lines_to_skip": "lines_to_skip",
+                                      "samples_in_bin": "samples_in_bin", "ts_sum": "ts_sum",
+                                      "resample_state": "resample_state"}),
     "Config": ("CacheView", {"bucket_size": "bucket_size"}),
+    # the accumulator of a resampling read IS the model's `Sampler`
+    "Sampler": ("Impl.Sampler", {"resample_state": "vSum", "timestamp_sum": "tsSum", "sampled": "sampled",
+                                 "bucket_size": "bucket"}),
 }
 # every field of these structs must be in the map (a new field changes what the type means)
 STRUCTS_EXACT = {"RoughPos", "Pos", "Estimate", "Entry"}
@@ -74,7 +80,19 @@ STD_ENUMS = {
     # `TimeRange { None, Some(RangeInclusive) }` is the model's `Option (first, last)`
     "TimeRange": ("Option", {"None": ("none", 0), "Some": ("some", 1)}),
 }
-MUTSELF_TARGETS = {("TimeRange", "update")}
+MUTSELF_TARGETS = {("TimeRange", "update"), ("DownSampledData", "process"), ("Sampler", "process")}
+# `self.<field>.push(x)` on the caller's output vectors: actions
+EFFECT_FIELD_PUSH = {("Sampler", "timestamps"): "(CatchUp.outTs {0})", ("Sampler", "data"): "(CatchUp.outItem {0})"}
+# fields that only feed panic messages: statements on them are dropped
+IGNORED_FIELDS = {("DownSampledData", "debug_tss")}
+# calls through the generic resampler of the cache: the harness's `Lin` resampler over the library's u64 state
+# (field, method) -> (kind, template); {s} = self, {0}.. = arguments
+RESAMPLER_CALLS = {
+    ("resampler", "decode_payload"): ("pure", "(Impl.linDecode {0})", "u64"),
+    ("resampler", "encode_item"): ("pure", "(Impl.linEncode {s}.data.p {0})", "[u8]"),
+    ("resample_state", "add"): ("state_add", None, None),
+    ("resample_state", "finish"): ("state_finish", None, "u64"),
+}
 ERROR_ENUMS = {"Error"}          # variants become `Fault.err "<Variant>"`
 
 # trivial getters: (type, method) -> field; the Rust body must be literally `self.<field>`
@@ -96,10 +114,11 @@ EXTERNALS = {
 # external's error, translation stops there
 EFFECT_METHODS = {
     ("Data", "clear"): ("CatchUp.clear", False),
+    ("Data", "push_data"): ("(CatchUp.push {0} {1})", False),
     (None, "read_with_processor"): ("(CatchUp.replay {0})", True),
 }
 EFFECT_FIELDS = {("DownSampledData", "lines_to_skip"): "(CatchUp.skip {0})"}
-TRACE_TARGETS = {(None, "add_missing_data")}
+TRACE_TARGETS = {(None, "add_missing_data"), ("DownSampledData", "process"), ("Sampler", "process")}
 SKIP_PARAMS = {"corruption_callback"}
 
 # (file, impl type or None, fn, extra parameters appended to the Lean signature)
@@ -135,6 +154,8 @@ TARGETS = [
     ("src/seek/estimate.rs", "RoughPos", "estimate_lines", None),
     ("src/series/downsample/repair.rs", None, "add_missing_data", None),
     ("src/series.rs", "TimeRange", "update", None),
+    ("src/series/downsample.rs", "DownSampledData", "process", None),
+    ("src/series/data/inline_meta.rs", "Sampler", "process", None),
 ]
 
 LEAN_KEYWORDS = {"end", "at", "from", "open", "section", "then", "do", "fun", "in", "have", "show", "where",
@@ -156,6 +177,7 @@ def norm_type(t, impl=None):
         return None
     t = t.replace(" ", "")
     t = re.sub(r"^((?:&(?:'[a-z_]+)?(?:mut)?)*)DownSampledData<\w+>$", r"\1DownSampledData", t)
+    t = re.sub(r"^Sampler<.*>$", "Sampler", t)
     t = re.sub(r"^(&('[a-z_]+)?(mut)?)+", "", t)
     t = re.sub(r"^mut", "", t) if t.startswith("mut") and not t.startswith("mutable") and len(t) > 3 and t[3].isupper() else t
     if t == "Self" and impl:
@@ -271,7 +293,7 @@ class Tr:
         self.stopped = False
         self.mutself = (impl, fn_name) in MUTSELF_TARGETS
         if self.mutself:
-            self.sink = "self"
+            self.sink = "(self, trace_)" if self.trace else "self"
             self.mutables.add("self")
         self.iters = []
         for p in params:
@@ -293,6 +315,9 @@ class Tr:
                     self.mutables.add(pat[1])
 
     # ------------------------------------------------------------------ helpers
+    def sink_term(self):
+        return self.sink if self.sink.startswith("(") else mangle(self.sink)
+
     def fresh(self):
         self.tmp += 1
         return f"t{self.tmp}"
@@ -530,6 +555,9 @@ class Tr:
         fn = {"+": "Rs.add", "-": "Rs.sub", "*": "Rs.mul", "/": "Rs.div"}.get(op)
         if not fn:
             raise Unsupported(f"operator {op}")
+        if "u128" in (va.ty, vb.ty) and op in ("+", "*"):
+            fn += "128"
+            ty = "u128"
         return Val(sa + sb, f"({fn} {ta} {tb})", "mon", ty)
 
     def tr_bin(self, e):
@@ -789,7 +817,9 @@ class Tr:
             s, t, v = self.atom_of(args[0])
             if name == "from":
                 return Val(s, t, "pure", path[0])
-            return Val(s, f"(some {t})", "pure", f"Option<{path[0]}>")
+            if path[0] == "u128":
+                return Val(s, f"(some {t})", "pure", "Option<u128>")
+            return Val(s, f"(Rs.tryU64 {t})", "pure", f"Option<{path[0]}>")
         r = self.resolve_enum(path)
         if r:
             en, variant = r
@@ -866,6 +896,29 @@ class Tr:
             return self.copy_from_slice(recv_e, args[0])
         if name == "map_err":
             return self.tr(recv_e)                      # only the error's wrapping changes
+        if recv_e[0] == "field" and recv_e[1] == ("path", ["self"]):
+            if (self.impl, recv_e[2]) in IGNORED_FIELDS:
+                return Val([], "()", "unit")
+            if self.trace and name == "push" and (self.impl, recv_e[2]) in EFFECT_FIELD_PUSH:
+                sx, tx, _ = self.atom_of(args[0])
+                return Val(sx + [("assign", "trace_", f"trace_ ++ [{EFFECT_FIELD_PUSH[(self.impl, recv_e[2])].format(tx)}]")], "()", "mon_unit")
+            if self.mutself and (recv_e[2], name) in RESAMPLER_CALLS:
+                kind, tmpl, rty = RESAMPLER_CALLS[(recv_e[2], name)]
+                st, ts = [], []
+                for a in args:
+                    s_, t_, _v = self.atom_of(a)
+                    st += s_; ts.append(t_)
+                if kind == "pure":
+                    return Val(st, tmpl.format(*ts, s="self"), "pure", rty)
+                fld = STRUCTS[self.impl][1]["resample_state"]
+                if kind == "state_add":      # `*self += item` on the library's u64 state
+                    t = self.fresh()
+                    return Val(st + [("letm", t, f"(Rs.add self.{fld} {ts[0]})"),
+                                     ("assign", "self", "{ self with " + fld + " := " + t + " }")], "()", "mon_unit")
+                if kind == "state_finish":   # `*self / from_usize(n)`, then `*self = 0`
+                    t = self.fresh()
+                    return Val(st + [("letm", t, f"(Rs.div self.{fld} {ts[0]})"),
+                                     ("assign", "self", "{ self with " + fld + " := 0 }")], t, "pure", rty)
         if self.trace and (None, name) in EFFECT_METHODS:
             tmpl, final = EFFECT_METHODS[(None, name)]
             sx, tx, _ = self.atom_of(args[0])
@@ -894,7 +947,11 @@ class Tr:
             tmpl, final = EFFECT_METHODS[(ty, name)]
             if final:
                 self.stopped = True
-            return Val(recv.stmts + [("assign", "trace_", f"trace_ ++ [{tmpl}]")], "()", "mon_unit")
+            st, ts = list(recv.stmts), []
+            for a in args:
+                s_, t_, _v = self.atom_of(a)
+                st += s_; ts.append(t_)
+            return Val(st + [("assign", "trace_", f"trace_ ++ [{tmpl.format(*ts)}]")], "()", "mon_unit")
         if is_bytes(ty) and name == "len":
             s_, t_ = self.atom(recv)
             return Val(s_, f"{t_}.length", "pure", "usize")
@@ -1093,7 +1150,7 @@ class Tr:
                 return [("return", "none")]
             s, t, _v = self.atom_of(x)
             if self.sink:
-                t = f"({mangle(self.sink)}, {t})"
+                t = f"({self.sink_term()}, {t})"
             return s + [("return", t)]
         if k == "break":
             return [("break",)]
@@ -1148,13 +1205,17 @@ class Tr:
         if self.stopped:
             self.scope = saved
             if not out or out[-1][0] not in ("return", "throw"):
-                out.append(("return", f"(trace_, ())") if self.trace else ("pure", "()"))
+                out.append(("return", f"({self.sink_term()}, ())") if self.trace else ("pure", "()"))
             return out
         if tail is not None:
             if tail[0] in ("return", "break", "continue"):
                 out += self.stmt_expr(tail)
             elif mode == "unit":
                 out += self.stmt_expr(tail)
+            elif tail[0] == "if" and tail[3] is None:
+                # `if c { .. }` as the last expression of a block of type ()
+                out += self.stmt_expr(tail)
+                out.append(("pure", "()"))
             else:
                 out += self.value_items(self.tr(tail))
         elif mode == "value":
@@ -1206,6 +1267,19 @@ class Tr:
         if self.mutself and op == "=" and lhs == ("deref", ("path", ["self"])):
             s2, tv, _ = self.atom_of(rhs)
             return s2 + [("assign", "self", tv)]
+        if self.mutself and lhs[0] == "field" and lhs[1] == ("path", ["self"]) and self.impl in STRUCTS:
+            lean, fmap = STRUCTS[self.impl]
+            f = lhs[2]
+            if f not in fmap or fmap[f].startswith("@"):
+                raise Unsupported(f"assignment to field {f}")
+            if op == "=":
+                s2, tv, _ = self.atom_of(rhs)
+            elif op in ("+=", "-=", "*="):
+                v = self.arith(op[0], lhs, rhs)
+                s2, tv = self.atom(v)
+            else:
+                raise Unsupported(f"assignment operator {op}")
+            return s2 + [("assign", "self", "{ self with " + fmap[f] + " := " + tv + " }")]
         if self.trace and op == "=" and lhs[0] == "field":
             base = self.tr(lhs[1])
             key = (base.ty, lhs[2])
@@ -1433,12 +1507,19 @@ def translate_one(w, generated, impl, fn, extra):
     rty = lean_type(ret, impl) if ret else "Unit"
     sq = tr.seq(body, "value")
     if tr.sink:
-        rty = f"(List CatchUp × {rty})" if tr.trace else (f"({lean_type(impl)} × {rty})" if tr.mutself else f"(Bytes × {rty})")
+        if tr.trace and tr.mutself:
+            rty = f"(({lean_type(impl)} × List CatchUp) × {rty})"
+        elif tr.trace:
+            rty = f"(List CatchUp × {rty})"
+        elif tr.mutself:
+            rty = f"({lean_type(impl)} × {rty})"
+        else:
+            rty = f"(Bytes × {rty})"
         last = sq[-1]
         if last[0] == "pure":
-            sq = sq[:-1] + [("pure", f"({mangle(tr.sink)}, {last[1]})")]
+            sq = sq[:-1] + [("pure", f"({tr.sink_term()}, {last[1]})")]
         elif last[0] == "mon":
-            sq = sq[:-1] + [("letm", "ret_", last[1]), ("pure", f"({mangle(tr.sink)}, ret_)")]
+            sq = sq[:-1] + [("letm", "ret_", last[1]), ("pure", f"({tr.sink_term()}, ret_)")]
         elif last[0] not in ("return", "throw"):
             raise Unsupported("shape of the function's last statement")
     sq = pre + sq
